@@ -46,23 +46,25 @@ Theorem C02_args_nth : forall (A : Type) (d : A) vs s i, (i < List.length vs)%na
 Proof. exact @indexed_nth. Qed.
 Print Assumptions C02_args_nth.
 
-(* each read queries only addresses inside the requested range, on the addressed unit's handler *)
-Theorem C02_reads_in_range : forall (St : Type) (H : handler St) a units fr e k u addr,
-  In e (spec_calls H a units fr) -> ev_read e = Some (k, u, addr) ->
-  exists fc r s n, decode (f_pdu fr) = Valid fc r /\ kind_of r = k /\ f_dest fr = DUnit u /\ arg_of r = ARange s n /\ (s <= addr /\ addr < s + n).
+(* each read queries only addresses inside the requested range, on the handler object the addressed
+   unit id maps to *)
+Theorem C02_reads_in_range : forall (St : Type) (H : handler St) a units fr e k h addr,
+  In e (spec_calls H a units fr) -> ev_read e = Some (k, h, addr) ->
+  exists fc r u s n, decode (f_pdu fr) = Valid fc r /\ kind_of r = k /\ f_dest fr = DUnit u /\ lookup u (u_map units) = Some h /\
+                     arg_of r = ARange s n /\ (s <= addr /\ addr < s + n).
 Proof. exact @reads_in_range. Qed.
 Print Assumptions C02_reads_in_range.
 
-(* no call, no change of application state *)
+(* no call, no change of application state (same unit map, every handler object's state as before) *)
 Theorem C02_no_effect : forall (St : Type) (H : handler St) l a units fr, frame_ok l fr ->
-  spec_calls H a units fr = [] -> units_of (handle_frame H l a units fr) = units.
+  spec_calls H a units fr = [] -> same_units (units_of (handle_frame H l a units fr)) units.
 Proof. exact @no_effect_frame. Qed.
 Print Assumptions C02_no_effect.
 
 (* non-vacuity: malformed / over-limit / wrong-unit / unknown-function frames cause no call; the
    write is seen once with its decoded items; the read stops at the failing address 2 *)
 Example C02_nonvacuous :
-  run_model (LTcp, [mku 1 3 5 [(0, 2, 4)] [] [] [] [] []], CNone,
+  run_model (LTcp, [(1, 1)], [mku 1 3 5 [(0, 2, 4)] [] [] [] [] []], CNone,
              [mkf (Some 1) (DUnit 1) [15; 0; 16; 0; 10; 2; 205; 1]; mkf (Some 2) (DUnit 1) [15; 0; 16; 0; 10; 1; 205];
               mkf (Some 3) (DUnit 1) [1; 0; 0; 7; 209]; mkf (Some 4) (DUnit 2) [5; 0; 1; 255; 0];
               mkf (Some 5) (DUnit 1) [9; 9]; mkf (Some 6) (DUnit 1) [1; 0; 0; 0; 5]])
